@@ -145,6 +145,8 @@ SLOT = {
     "W": ["foo", "note", "alpha", "x", "HTML", "warning", "unknown", "toc", "lt", "copy"],
     "N": ["0", "00", "1", "2", "9", "10", "123456789", "007"],
     "S": [" ", "  ", "   ", "\t", ""],
+    "O": ["class", "text", "self", "name", "attrs", "title", "alt", "width", "max-level", "min-level", "collapse", "zqopt", "renderer", "key", "index", "encoding", "target", "figclass"],
+    "I2": ["{.python}", "{#id}", "{r,echo=FALSE}", "{py:function}", "{.python .numberLines}", "{note", "note}", "{}", "{x y}"],
     "Q": [" ", "\t", "", "  ", " \t"],
     "K": ["", "\n", "\n\n", "\n\n\n"],
 }
@@ -159,7 +161,7 @@ SLOT_TEMPLATES = [
     "# {T} [{L}]\n\n## {T} <!-- {T} > {T} --> {T}\n\n{T}\n", "# {T}[^{L}]\n\n{T}[^{W}]\n\n[^{L}]: {T}\n\n[^{W}]: {T}\n", "{T}[^{W}]\n\n# {T}[^{L}]\n\n{T}\n\n[^{L}]: {T}\n\n[^{W}]: {T}\n",
     ".. toc::\n\n# {T}\n\n## {T}\n\n# {T}\n", "```{{toc}}\n```\n\n# {T}\n\n### {T}\n", ".. toc:: {T}\n   :min-level: {N}\n   :max-level: {N}\n\n# {T}\n\n## {T}\n",
     ".. note:: {T}\n   :class: {T}\n\n   {T}\n", "```{{note}} {T}\n:class: {T}\n\n{T}\n```\n", ".. image:: {U}\n   :alt: {T}\n   :width: {T}\n   :height: {T}\n   :align: {T}\n   :target: {U}\n",
-    ".. figure:: {U}\n   :figwidth: {T}\n   :figclass: {T}\n\n   {T}\n\n   {T}\n", ".. figure:: {U}\n\n   {T}\n", "```{{figure}} {U}\n\n{T}\n```\n", ".. note::\n\n   {T}\n", "```{{note}}\n{T}\n```\n", ".. image:: {U}\n\n   {T}\n", "- {T}\n:::{{note}}\n{T}\n:::\n", "- {T}\n```{{note}}\n{T}\n```\n", "1. {T}\n.. note:: {T}\n", "> {T}\n:::{{note}} {T}\n:::\n", ".. include:: {U}\n", ".. {W}:: {T}\n\n   {T}\n", "```{{{W}}} {T}\n{T}\n```\n",
+    ".. figure:: {U}\n   :figwidth: {T}\n   :figclass: {T}\n\n   {T}\n\n   {T}\n", ".. figure:: {U}\n\n   {T}\n", "```{{figure}} {U}\n\n{T}\n```\n", ".. note::\n\n   {T}\n", "```{{note}}\n{T}\n```\n", ".. image:: {U}\n\n   {T}\n", "- {T}\n:::{{note}}\n{T}\n:::\n", "- {T}\n```{{note}}\n{T}\n```\n", "1. {T}\n.. note:: {T}\n", "> {T}\n:::{{note}} {T}\n:::\n", ".. note:: {T}\n   :{O}: {T}\n\n   {T}\n", "```{{note}} {T}\n:{O}: {T}\n\n{T}\n```\n", "```{{note}} {T}\n:{O}:{T}\n{T}\n```\n", "```{{toc}} {T}\n:{O}:{N}\n```\n\n# {T}\n\n## {T}\n\n### {T}\n", ".. toc:: {T}\n   :{O}:{N}\n\n# {T}\n\n## {T}\n", ".. image:: {U}\n   :{O}: {T}\n", "```{{include}} {U}\n:{O}: {T}\n```\n", "```{{figure}} {U}\n:{O}: {T}\n\n{T}\n```\n", "```{I2}\n*{T}* [{T}]({U}) &amp;\n```\n\nafter {T}\n", "~~~{I2}\n{B}\n~~~\n", ".. figure:: {U}\n\n   {T}\n   - {T}\n   - {T}\n", "```{{figure}} {U}\n{T}\n> {T}\n```\n", "```{{figure}} {U}\n{T}\n# {T}\n```\n", "```{{figure}} {U}\n{T}\n```py\n{B}\n```\n```\n", "> ```{{note}}\n> {W}\n> :   - {T}\n>       - {T}\n>           - {T}\n> ```\n", "> > ```{{note}}\n> > {W}\n> > :   - {T}\n> > ```\n", "- ```{{note}}\n  {W}\n  :   > {T}\n  :   - - - {T}\n  ```\n", "```{{note}}\n{W}\n: - - - - - - {T}\n```\n", ".. note::\n\n   {W}\n   :   - {T}\n         - {T}\n", "> ```\n> {B}\n>\n", "> ```\n> {B}\n>\n>\n\n{T}\n", "> <?php\n> {T}\n>\n", "- ```\n  {B}\n\n", "> {T}\n>\n>\n", "<DIV>{T}\n</DIV>\n\n{T}\n", "<TABLE><TR><TD>\n{T}\n</TD></TR></TABLE>\n", "- {T}\n<DIV CLASS=\"foo\">\n{T}\n</DIV>\n", "<Pre>\n{B}\n</pre>\n\n{T}\n", "<PRE>\n{B}\n</PRE>\n\n{T}\n", "[{T}](x\\(y)[{T}](z)\n", "*[{T}](q\\()*[{T}](r)\n", "[{T}](<https://example.com/wiki/page(topic)>)\n", "![{T}](https://e.com/a_(b)) [{T}](/p(q)r)\n", "[{T}](/u)[{T}](/v)`)`\n", "{T}[^{L}]\n\n[^{L}]: {T}\n   {T}\n {T}\n  {T}\n\n   {T}\n {T}\n", "Wow![^{L}] {T}[^{W}] again[^{L}]\n\n[^{L}]: {T}\n\n[^{W}]: {T}\n", "![*see [the link [^{L}]](/u) here*](/pic.png) {T}[^{L}]\n\n[^{L}]: {T}\n", "https://a.b/x[^{L}] x^[^{L}] {T}\n\n[^{L}]: {T}\n", "{W}\n:   {T}\n\n        {B}  \n", "{W}\n: ```\n  {B} \t\n", "{W}\n:   {T}\n\n    ```\n    {B}   \n", "[![{T}]({U}) {T}](https://example.com/)\n", "[![{T}]({U})](https://example.com/)\n", "[*{T}* ![{T}]({U}) `{B}`]({U})\n", ".. include:: {U}\n", ".. {W}:: {T}\n\n   {T}\n", "```{{{W}}} {T}\n{T}\n```\n",
     "<{U}>\n", "[{T}]({U} \"{T}\")\n", "![{T}]({U})\n", "[{T}](<{U}> '{T}')\n", "{T} <http://example.com/{L}> {T}\n", "[http://e.com/{L}](<http://e.com/{L}>)\n",
     "{T}\n{S}{T}\n{S}{T}\n", "{T} `a\n{S}b` {T}\n", "{T} <a\n{S}href='x'> {T}\n", "> {T}\n{S}{T}\n", "- {T}\n{S}{T}\n",
     "{N}. {T}\n{N}. {T}\n", "{N}) {T}\n\n{N}) {T}\n", "- {T}\n\n  {N}. {T}\n",
@@ -228,7 +230,7 @@ def slot_sweep():
     """deterministic edge sweep: every template, every slot kind in it set (everywhere) to every filler of that kind, the
     other kinds at a plain default"""
     import re as _re
-    default = {"L": "foo", "T": "alpha", "U": "/u", "C": "a", "B": "x", "I": "", "W": "note", "N": "1", "S": " ", "Q": " ", "K": "\n"}
+    default = {"O": "class", "I2": "{.python}", "L": "foo", "T": "alpha", "U": "/u", "C": "a", "B": "x", "I": "", "W": "note", "N": "1", "S": " ", "Q": " ", "K": "\n"}
     out = []
     for tpl in SLOT_TEMPLATES:
         kinds = sorted(set(_re.findall(r"(?<!\{)\{([A-Z])\}", tpl)))
